@@ -180,16 +180,14 @@ Proof.
   unfold External.empty_definition. apply complete_definition_bn. intros F [].
 Qed.
 
-(* completion (+ the empty definitions of missing outputs) of parser-image formulas with non-empty
-   binders: parser-image sentences *)
-Theorem completion_missing_outputs_psent G ins outs D :
-  (forall f, In f G -> parser_image f /\ bn f) -> completion G ins = Some D ->
-  forall d, In d (D ++ External.missing_output_definitions outs D) -> psent d.
+(* completion of parser-image formulas with non-empty binders, and the empty completed definitions
+   appended for missing output predicates: parser-image sentences *)
+Theorem completion_psent G ins D :
+  (forall f, In f G -> parser_image f /\ bn f) -> completion G ins = Some D -> forall d, In d D -> psent d.
 Proof.
   intros HG E d Hd. split.
-  - exact (completion_missing_outputs_pi G ins outs D (fun f Hf => proj1 (HG f Hf)) E d Hd).
-  - apply in_app_or in Hd. destruct Hd as [Hd|Hd].
-    + exact (completion_closed G ins D (fun f Hf => proj2 (HG f Hf)) E d Hd).
-    + unfold External.missing_output_definitions in Hd. apply in_map_iff in Hd. destruct Hd as [q [<- _]].
-      apply empty_definition_closed.
+  - exact (completion_pi G ins D (fun f Hf => proj1 (HG f Hf)) E d Hd).
+  - exact (completion_closed G ins D (fun f Hf => proj2 (HG f Hf)) E d Hd).
 Qed.
+Lemma empty_definition_psent q : psent (External.empty_definition q).
+Proof. split; [apply empty_definition_pi|apply empty_definition_closed]. Qed.
